@@ -12,7 +12,10 @@ import (
 // recProto is a recording protocol: AddPipe accepts or refuses by decision.
 type recProto struct {
 	adds, removes []uint32
+	// the same, by object: ids may legitimately be reused once a pipe is gone
+	addP, remP []mangos.ProtocolPipe
 	refuse        func(n int) bool
+	onRefuse      func(p mangos.ProtocolPipe)
 	live          map[uint32]mangos.ProtocolPipe
 	nAdd          int
 	closed        bool
@@ -26,9 +29,13 @@ func (r *recProto) AddPipe(p mangos.ProtocolPipe) error {
 	r.nAdd++
 	if r.refuse != nil && r.refuse(n) {
 		verif.Observe("proto refuses pipe")
+		if r.onRefuse != nil {
+			r.onRefuse(p)
+		}
 		return mangos.ErrProtoState
 	}
 	r.adds = append(r.adds, p.ID())
+	r.addP = append(r.addP, p)
 	r.live[p.ID()] = p
 	go func() { // like every real protocol: a receiver that notices the connection going away
 		for p.RecvMsg() != nil {
@@ -38,6 +45,7 @@ func (r *recProto) AddPipe(p mangos.ProtocolPipe) error {
 }
 func (r *recProto) RemovePipe(p mangos.ProtocolPipe) {
 	r.removes = append(r.removes, p.ID())
+	r.remP = append(r.remP, p)
 	delete(r.live, p.ID())
 }
 func (r *recProto) OpenContext() (mangos.ProtocolContext, error) { return nil, mangos.ErrProtoOp }
@@ -58,7 +66,19 @@ type pipeLife struct {
 	attaching, attached, detached   int
 	firstEv                         int
 	closedInAttaching, closedInAttached bool
+	refused                             bool // the protocol refused it: it gets no further events and its id is free again
 	p                               mangos.Pipe
+}
+
+// countP: how often the protocol was told about this very pipe object
+func countP(ps []mangos.ProtocolPipe, p mangos.Pipe) int {
+	n := 0
+	for _, x := range ps {
+		if y, ok := x.(mangos.Pipe); ok && y == p {
+			n++
+		}
+	}
+	return n
 }
 
 func count(ids []uint32, id uint32) int {
@@ -80,7 +100,7 @@ func VH13a_listener() {
 	rp := &recProto{live: map[uint32]mangos.ProtocolPipe{}}
 	sock := protocol.MakeSocket(rp)
 	var evs []evrec
-	lives := map[uint32]*pipeLife{}
+	lives := map[mangos.Pipe]*pipeLife{} // by pipe object, not by id: an id may be reused once its pipe is gone
 	var order []*pipeLife
 	fate := make([]int, C) // 6 peer already gone when accepted; 0 live, 1 hook closes in Attaching, 2 hook closes in Attached, 3 proto refuses, 4 peer drops later, 5 app closes later
 	for i := range fate {
@@ -88,20 +108,26 @@ func VH13a_listener() {
 	}
 	cur := 0
 	rp.refuse = func(n int) bool { return false }
+	rp.onRefuse = func(pp mangos.ProtocolPipe) {
+		if q, ok := pp.(mangos.Pipe); ok && lives[q] != nil {
+			lives[q].refused = true
+		}
+	}
 	sock.SetPipeEventHook(func(ev mangos.PipeEvent, p mangos.Pipe) {
 		evs = append(evs, evrec{int(ev), p.ID(), p})
-		l := lives[p.ID()]
-		if l == nil || (ev == mangos.PipeEventAttaching && l.detached > 0) {
+		l := lives[p]
+		if l == nil {
 			l = &pipeLife{id: p.ID(), firstEv: int(ev), p: p}
-			lives[p.ID()] = l
+			lives[p] = l
 			order = append(order, l)
 		}
+		verif.Assert(l.id == p.ID(), lab+"/pipe-id-changed-during-its-life")
 		switch ev {
 		case mangos.PipeEventAttaching:
 			l.attaching++
 			// ids of pipes that are attached and not yet detached must differ
 			for _, o := range order {
-				if o != l && o.attaching > 0 && o.detached == 0 && !o.closedInAttaching {
+				if o != l && o.attaching > 0 && o.detached == 0 && !o.closedInAttaching && !o.refused {
 					verif.Assert(o.id != l.id, lab+"/id-shared-by-two-live-pipes")
 				}
 			}
@@ -170,8 +196,8 @@ func VH13a_listener() {
 			verif.Assert(l.attached == 1, lab+"/accepted-pipe-not-Attached")
 			verif.Assert(l.detached == 1, lab+"/Detached-not-exactly-once-after-Attached")
 		}
-		added := count(rp.adds, l.id)
-		removed := count(rp.removes, l.id)
+		added := countP(rp.addP, l.p)
+		removed := countP(rp.remP, l.p)
 		if f == 1 || f == 3 {
 			verif.Assert(added == 0 && removed == 0, lab+"/protocol-told-about-refused-pipe")
 		} else {
